@@ -53,7 +53,7 @@ var tensorContracts = map[string]contract{}
 func init() {
 	T := pkgTensor
 	arith := contract{res: fresh(2), opts: true}
-	for _, n := range []string{"Add", "Sub", "Mul", "Div", "MatMul", "Gt", "Gte", "Lt", "Lte", "ElEq", "ElNe", "Abs", "Neg", "Exp", "Tanh", "Sum", "Sqrt", "Log", "Pow", "Max", "Min", "SoftMax", "LogSoftMax", "Dot", "Sign", "Square", "Clamp"} {
+	for _, n := range []string{"Add", "Sub", "Mul", "Div", "MatMul", "Gt", "Gte", "Lt", "Lte", "ElEq", "ElNe", "Abs", "Neg", "Exp", "Tanh", "Sum", "Sqrt", "Log", "Pow", "Max", "Min", "SoftMax", "LogSoftMax", "Dot", "Sign", "Square", "Clamp", "MaxBetween", "MinBetween"} {
 		tensorContracts[T+"."+n] = arith
 	}
 	tensorContracts[T+".New"] = contract{res: []resSpec{{kind: rNewOpt}}}
